@@ -27,7 +27,7 @@ def declare(rep):
     rep.rule("C12.area-normal", "update_face_normal_and_area: area = |(x2-x1)x(x3-x1)|/2, normal = normalised cross product", floor=2)
     rep.rule("C12.centroid", "compute_centroid: sum over used faces of (x1+x2+x3)/3*area, divided by area_", floor=2)
     rep.rule("C12.flood-fill-complete", "the winding flood fill of check_face_normal_orientation queues, for the seed face and for every face it visits, the neighbours across all three edges of that face - (n1,n2), (n2,n3), (n3,n1): a neighbour that is never queued from a face can stay unreached, so a wrongly wound input triangle is left as it is", floor=2)
-    rep.rule("C12.eigen-similarity", "every Givens step of gte::SymmetricEigensolver3x3::operator() is a similarity transform of the tridiagonal matrix (b00 b01 b11 b12 b22), and every final reflection of the 2x2 block it diagonalises: with c, s the half-angle pair of GetCosSin(u, v) - c^2+s^2 = 1 and 2cs u = (c^2-s^2) v - the straight-line update preserves trace, tr(B^2) and det, i.e. the characteristic polynomial, as a polynomial identity modulo those two relations. A step that is not a similarity makes the iteration converge to numbers that are not the eigenvalues of the covariance matrix, and the long axis is then wrong for every cell", floor=5)
+    rep.rule("C12.eigen-similarity", "every Givens step of gte::SymmetricEigensolver3x3::operator() is a similarity transform of the tridiagonal matrix (b00 b01 b11 b12 b22), and every final reflection of the 2x2 block it diagonalises: with c, s the half-angle pair of GetCosSin(u, v) - c^2+s^2 = 1 and 2cs u = (c^2-s^2) v - the straight-line update preserves trace, tr(B^2) and det, i.e. the characteristic polynomial, as a polynomial identity modulo those two relations. A step that is not a similarity makes the iteration converge to numbers that are not the eigenvalues of the covariance matrix, and the long axis is then wrong for every cell", floor=11)
     rep.rule("C12.area-sum", "compute_area: sum of get_area() over used faces only", floor=1)
     rep.rule("C12.aabb", "get_aabb: running min/max per axis over used nodes from +/-infinity, returned as (min xyz, max xyz)", floor=7)
     rep.rule("C12.eigen-layout", "the axis returned for eigenvalue k is (evec[k][0], evec[k][1], evec[k][2]): index bookkeeping through the mat33 constructor, transpose and get_col agrees between eigen_decomposition and get_cell_longest_axis", floor=3)
@@ -369,6 +369,11 @@ def _lin_eval(e, env, consts):
     """value of a scalar expression made of locals, literals, + - * /, unary -, std::sqrt - as a sympy expression"""
     e = strip(e)
     k = e.get("k")
+    if k == "ArraySubscriptExpr":
+        key = render(e).replace(" ", "")
+        if key in env:
+            return env[key]
+        raise _NoForm("array element '%s' at line %s" % (key, e.get("l")))
     if k in ("ParenExpr", "CStyleCastExpr", "CXXFunctionalCastExpr", "CXXStaticCastExpr", "ImplicitCastExpr") and e.get("c"):
         return _lin_eval([c_ for c_ in e["c"] if isinstance(c_, dict)][-1], env, consts)
     if k in ("FloatingLiteral", "IntegerLiteral"):
@@ -389,6 +394,51 @@ def _lin_eval(e, env, consts):
     if k == "CallExpr" and e.get("callee") in ("std::sqrt", "sqrt") and len(call_args(e)) == 1:
         return sp.sqrt(_lin_eval(call_args(e)[0], env, consts))
     raise _NoForm("expression '%s' at line %s" % (short(e, 60), e.get("l")))
+
+
+def _update_matrix(prog, call):
+    """G with (row of Q) <- (row of Q) * G, read from the body of the Update function called: entries are polynomials in c, s"""
+    fn = prog.fn(call.get("callee"))
+    ps = [p_ for p_ in fn.get("params", []) if isinstance(p_, dict)]
+    if len(ps) != 3:
+        raise _NoForm("%s does not take (Q, c, s)" % call.get("callee"))
+    loops = [l for l in walk(fn["body"]) if l.get("k") == "ForStmt"]
+    if len(loops) != 1 or not isinstance(loops[0].get("init"), dict) or len(loops[0]["init"].get("decls", [])) != 1:
+        raise _NoForm("%s is not one loop over the rows" % call.get("callee"))
+    rv = loops[0]["init"]["decls"][0]
+    trips = re.sub(r"[()\s]", "", render(loops[0].get("cond") or {}))
+    if trips != "%s<3" % rv.get("name") or re.sub(r"[()\s]", "", render(rv.get("init") or {})) != "0":
+        raise _NoForm("the loop of %s does not visit the rows 0, 1, 2" % call.get("callee"))
+    q = [sp.Symbol("q%d" % j) for j in range(3)]
+    env = {ps[1]["did"]: sp.Symbol("c"), ps[2]["did"]: sp.Symbol("s")}
+    for j in range(3):
+        env["%s[%s][%d]" % (ps[0].get("name"), rv.get("name"), j)] = q[j]
+    body = loops[0].get("body") or {}
+    for st_ in (body.get("c", []) if body.get("k") == "CompoundStmt" else [body]):
+        st_ = strip(st_)
+        if st_.get("k") == "DeclStmt":
+            for d_ in st_.get("decls", []):
+                if isinstance(d_, dict) and d_.get("k") == "Var" and isinstance(d_.get("init"), dict):
+                    env[d_["did"]] = _lin_eval(d_["init"], env, {})
+            continue
+        if st_.get("k") == "BinaryOperator" and st_.get("op") == "=":
+            t = strip(st_["c"][0])
+            v = _lin_eval(st_["c"][1], env, {})
+            if t.get("k") == "ArraySubscriptExpr" and render(t).replace(" ", "") in env:
+                env[render(t).replace(" ", "")] = v
+                continue
+            if t.get("k") == "DeclRefExpr":
+                env[t["ref"]["did"]] = v
+                continue
+        raise _NoForm("statement at line %s of %s" % (st_.get("l"), call.get("callee")))
+    new = [sp.expand(env["%s[%s][%d]" % (ps[0].get("name"), rv.get("name"), j)]) for j in range(3)]
+    G = sp.zeros(3, 3)
+    for j in range(3):
+        for i in range(3):
+            G[i, j] = new[j].coeff(q[i])
+        if sp.expand(new[j] - sum(G[i, j] * q[i] for i in range(3))) != 0:
+            raise _NoForm("%s is not linear in the row of Q" % call.get("callee"))
+    return G
 
 
 def eigen_similarity(rep, prog):
@@ -466,6 +516,7 @@ def eigen_similarity(rep, prog):
                 if is_call(st_) and "::Update" in st_.get("callee", ""):
                     a = [strip(x) for x in call_args(st_)]
                     cs = (a[1]["ref"]["did"], a[2]["ref"]["did"])
+                    upd_call = st_
                     # from here on c, s are the half-angle pair: check 2cs = s2 and c^2 - s^2 = c2 modulo c2^2 + s2^2 = 1
                     cv_, sv_ = env[cs[0]], env[cs[1]]
                     r1 = sp.fraction(sp.together(sp.expand(2 * cv_ * sv_ - s2)))[0]
@@ -502,6 +553,28 @@ def eigen_similarity(rep, prog):
         for (what, before), (_w, after) in pairs:
             if G.reduce(sp.expand(before - after))[1] != 0:
                 bad.append(what)
+        # the very reflection G applied to the eigenvector matrix (Q <- Q G, read from the Update function) is the one applied to B
+        try:
+            Gm = _update_matrix(prog, upd_call)
+        except _NoForm as ex:
+            raise AnalysisBroken("SymmetricEigensolver3x3: %s" % ex)
+        b = [syms[d] for d in tri]
+        Bm = sp.Matrix([[b[0], b[1], 0], [b[1], b[2], b[3]], [0, b[3], b[4]]])
+        nb = [env[d] for d in tri]
+        if final_of is not None:
+            di, dj, o = (strip(x)["ref"]["did"] for x in call_args(final_of)[1:])
+            other = [d for d in (tri[1], tri[3]) if d != o][0]
+            Bm = Bm.subs(syms[other], 0)          # the entry outside the converged 2x2 block is the negligible one
+            code = sp.diag(nb[0], nb[2], nb[4])
+        else:
+            code = sp.Matrix([[nb[0], nb[1], 0], [nb[1], nb[2], nb[3]], [0, nb[3], nb[4]]])
+        Bp = Gm.T * Bm * Gm
+        mism = ["(%d,%d)" % (i, j) for i in range(3) for j in range(i, 3) if G.reduce(sp.expand(Bp[i, j] - code[i, j]))[1] != 0]
+        if not mism and sp.expand((Gm.T * Gm - sp.eye(3))[0, 0]) is not None and all(G.reduce(sp.expand(x))[1] == 0 for x in (Gm.T * Gm - sp.eye(3))):
+            rep.ok("C12.eigen-similarity", prog, fn, upd_call, "%s applies to the eigenvector matrix the orthogonal G for which the updated entries (lines %s-%s) are G^T B G" % (upd_call.get("callee", "").split("::")[-1], stmts[gcs[0]].get("l"), stmts[end].get("l")))
+        elif not bad:
+            rep.violation("C12.eigen-similarity", prog, fn, upd_call, "eigenvector update and matrix update use different reflections",
+                          "%s multiplies the eigenvector matrix Q by a matrix G for which G^T B G differs from the entries assigned in lines %s-%s at %s (polynomial identity modulo c^2+s^2=1 and the half-angle relation)%s: A = Q B Q^T no longer holds after the step, so the columns returned as eigenvectors do not belong to the returned eigenvalues and the long axis of the cell is wrong" % (upd_call.get("callee", ""), stmts[gcs[0]].get("l"), stmts[end].get("l"), ", ".join(mism) or "-", "" if mism else " (G is not orthogonal)"))
         if not bad:
             rep.ok("C12.eigen-similarity", prog, fn, stmts[gcs[0]], ("the final reflection (lines %s-%s) preserves trace and sum of squares of the 2x2 block it diagonalises" if final_of is not None else "the Givens step (lines %s-%s) preserves trace, tr(B^2) and det of the tridiagonal matrix") % (stmts[gcs[0]].get("l"), stmts[end].get("l")) + " modulo c^2+s^2=1 and 2cs*u=(c^2-s^2)*v")
         else:
@@ -543,6 +616,26 @@ def eigen_similarity(rep, prog):
                     ("the determinant", sp.Matrix([[a00, a01, a02], [a01, a11, a12], [a02, a12, a22]]).det())]
             G = sp.groebner([c ** 2 + s_ ** 2 - 1, sp.expand(c * v - s_ * u)], c, s_, a00, a01, a02, a11, a12, a22, order="grevlex")
             bad = [w for (w, before), (_w, after) in zip(full, invariants([env[d] for d in tri])) if G.reduce(sp.expand(before - after))[1] != 0]
+            # the matrix Q the eigenvectors start from is the reflection H with B = H^T A H
+            qm = None
+            for i in range(pg[0] + 1, last + 1):
+                for d_ in (strip(top[i]).get("decls", []) if strip(top[i]).get("k") == "DeclStmt" else []):
+                    it = strip(d_.get("init") or {}) if isinstance(d_, dict) else {}
+                    if it.get("k") == "InitListExpr" and len(it.get("c", [])) == 3 and all(strip(r_).get("k") == "InitListExpr" and len(strip(r_).get("c", [])) == 3 for r_ in it["c"]):
+                        qm = (d_, sp.Matrix([[_lin_eval(x, env, consts) for x in strip(r_)["c"]] for r_ in it["c"]]))
+            if qm is not None:
+                Am = sp.Matrix([[a00, a01, a02], [a01, a11, a12], [a02, a12, a22]])
+                nb = [env[d] for d in tri]
+                code = sp.Matrix([[nb[0], nb[1], 0], [nb[1], nb[2], nb[3]], [0, nb[3], nb[4]]])
+                Bp = qm[1].T * Am * qm[1]
+                mism = ["(%d,%d)" % (i, j) for i in range(3) for j in range(i, 3) if G.reduce(sp.expand(Bp[i, j] - code[i, j]))[1] != 0]
+                orth = all(G.reduce(sp.expand(x))[1] == 0 for x in (qm[1].T * qm[1] - sp.eye(3)))
+                n += 1
+                if not mism and orth:
+                    rep.ok("C12.eigen-similarity", prog, fn, qm[0], "the initial eigenvector matrix %s is the orthogonal H for which the tridiagonal entries are H^T A H (incl. b02 = 0)" % qm[0].get("name"))
+                elif not bad:
+                    rep.violation("C12.eigen-similarity", prog, fn, qm[0], "initial eigenvector matrix is not the reflection applied to the input",
+                                  "the matrix %s the eigenvectors are accumulated in starts as a matrix H for which H^T A H differs from the tridiagonal entries of lines %s-%s at %s%s: A = Q B Q^T does not hold from the start, so the returned eigenvectors do not belong to the returned eigenvalues" % (qm[0].get("name"), top[pg[0]].get("l"), top[last].get("l"), ", ".join(mism) or "-", "" if orth else " (H is not orthogonal)"))
             n += 1
             if not bad:
                 rep.ok("C12.eigen-similarity", prog, fn, top[pg[0]], "the Householder prologue (lines %s-%s) gives a tridiagonal matrix with the trace, tr(A^2) and det of the input matrix modulo c^2+s^2=1 and c*v=s*u" % (top[pg[0]].get("l"), top[last].get("l")))
@@ -551,6 +644,28 @@ def eigen_similarity(rep, prog):
                               "the tridiagonal matrix (%s) that SymmetricEigensolver3x3::operator() builds from its input (lines %s-%s) does not have %s of the input matrix (polynomial identity modulo c^2+s^2=1 and (c,s) parallel to the GetCosSin arguments): it is not H*A*H, so the eigenvalues the iteration converges to are not those of the covariance matrix and the long axis is wrong for every cell" % (", ".join(names[d] for d in tri), top[pg[0]].get("l"), top[last].get("l"), " and ".join(bad)))
         except _NoForm as ex:
             raise AnalysisBroken("SymmetricEigensolver3x3::operator(): the Householder prologue is not in a form this checker evaluates (%s)" % ex)
+    # the hand-over: eval[k] = diagonal[i_k] and evec[k] = column i_k of Q, for the same i_k
+    ev_ix, vec_ix = {}, {}
+    for a_ in walk(fn["body"]):
+        if a_.get("k") in ("BinaryOperator", "CXXOperatorCallExpr") and a_.get("op") == "=":
+            txt = render(a_).replace(" ", "").replace("this->", "")
+            m1 = re.fullmatch(r"\(?eval\[(\d)\]=diagonal\[(\w+)\]\)?", txt)
+            m2 = re.fullmatch(r"\(?evec\[(\d)\]\[(\d)\]=Q\[(\d)\]\[(\w+)\]\)?", txt)
+            if m1:
+                ev_ix[int(m1.group(1))] = (m1.group(2), a_)
+            if m2:
+                vec_ix[(int(m2.group(1)), int(m2.group(2)))] = (int(m2.group(3)), m2.group(4), a_)
+    if len(ev_ix) == 3 and len(vec_ix) == 9:
+        wrong = [(k, j) for (k, j), (row, ix, _a) in sorted(vec_ix.items()) if row != j or ix != ev_ix[k][0]]
+        n += 1
+        if not wrong and len({v[0] for v in ev_ix.values()}) == 3:
+            rep.ok("C12.eigen-similarity", prog, fn, ev_ix[0][1], "eval[k] = diagonal[i_k] and evec[k][j] = Q[j][i_k] with the same i_k for k, j = 0..2 (eigenvector k is the column of Q that belongs to eigenvalue k)")
+        else:
+            k, j = wrong[0] if wrong else (0, 0)
+            rep.violation("C12.eigen-similarity", prog, fn, vec_ix[(k, j)][2], "eigenvector handed over for the wrong eigenvalue",
+                          "SymmetricEigensolver3x3::operator() returns eval[%d] = diagonal[%s] but fills evec[%d][%d] from Q[%d][%s]: eigenvector k must be column i_k of Q, component by component, for the same i_k as the eigenvalue - otherwise the axis taken for the largest eigenvalue is not its eigenvector and the long axis of the cell is wrong" % (k, ev_ix[k][0], k, j, vec_ix[(k, j)][0], vec_ix[(k, j)][1]))
+    else:
+        raise AnalysisBroken("SymmetricEigensolver3x3::operator(): the hand-over of eigenvalues and eigenvectors (eval[k] = diagonal[..], evec[k][j] = Q[j][..]) is not in the form this checker reads (%d + %d assignments recognised)" % (len(ev_ix), len(vec_ix)))
     if n == 0:
         raise AnalysisBroken("SymmetricEigensolver3x3::operator(): no Givens iteration (loop with GetCosSin) found")
 
